@@ -455,12 +455,21 @@ def m_dict(E, a, kw):
     raise Unsupported('dict(...)')
 
 
+class VUnknownElem(V):
+    """element of an abstractly sorted list: any use is unsupported"""
+
+    def __repr__(self):
+        return '<element of sorted(symbolic list)>'
+
+
 @model('sorted')
 def m_sorted(E, a, kw):
     sq = E.list_val(a[0])
     c = sq.clen()
     if c is None:
-        raise Unsupported('sorted on symbolic-length list')
+        # some permutation of the input: same length, elements uninterpreted (sound for callers that only use it abstractly)
+        perm = E.fresh_seq('list', 'sorted_perm')
+        return E.new_list(VSeq('list', sq.n, lambda i: VUnknownElem()))
     items = [sq.at(z3.IntVal(k)) for k in range(c)]
     keys = []
     for it in items:
@@ -1124,6 +1133,10 @@ def m_dict_update(E, a, kw):
         d2.update(od)
         E.setf(ref, 'val', d2)
         return NONE
+    from .models_iso import FieldRes, MsgDict
+    if isinstance(od, FieldRes) and isinstance(d, dict):
+        d = MsgDict(d, od.bit)           # first element result: nothing flagged before it was added (checked by the loop invariant)
+        E.setf(ref, 'val', d)
     if isinstance(d, dict):
         from .models_iso import AssocDict
         d = AssocDict.from_concrete(d)
